@@ -90,7 +90,14 @@ func (r *Rec) Op(kind, line string, nontrivial bool) string {
 	if len(t) > 1 {
 		key += " " + t[1]
 	}
-	r.Dist[key+" -> "+strings.SplitN(res, " ", 2)[0]]++
+	rk := strings.SplitN(res, " ", 2)[0]
+	if i := strings.IndexAny(rk, ":;{[,"); i >= 0 {
+		rk = rk[:i+1] + "…"
+	}
+	if len(rk) > 16 {
+		rk = rk[:16] + "…"
+	}
+	r.Dist[key+" -> "+rk]++
 	return res
 }
 
